@@ -165,6 +165,16 @@ theorem circ_D_pos {ψ θ : ℝ} (h0 : 0 < ψ) (h1 : ψ < θ) (h2 : θ < 2 * Rea
   have s3 : 0 < Real.sin (θ / 2 - ψ / 2) := Real.sin_pos_of_pos_of_lt_pi (by linarith) (by linarith)
   positivity
 
+theorem sin_neg_upper {θ : ℝ} (h1 : Real.pi < θ) (h2 : θ < 2 * Real.pi) : Real.sin θ < 0 := by
+  have := Real.sin_pos_of_pos_of_lt_pi (x := θ - Real.pi) (by linarith) (by linarith)
+  rw [Real.sin_sub_pi] at this
+  linarith
+
+theorem sin_nonpos_upper {θ : ℝ} (h1 : Real.pi ≤ θ) (h2 : θ ≤ 2 * Real.pi) : Real.sin θ ≤ 0 := by
+  have := Real.sin_nonneg_of_nonneg_of_le_pi (x := θ - Real.pi) (by linarith) (by linarith)
+  rw [Real.sin_sub_pi] at this
+  linarith
+
 theorem nsq_circ {e1 e2 : Vec ℝ} (hF : Frame e1 e2) (r φ : ℝ) :
     nsq (comb e1 e2 (r * Real.cos φ) (r * Real.sin φ)) = r * r := by
   rw [nsq_comb hF]
